@@ -53,9 +53,7 @@ class SignedCertificateTimestamp(ParsableBase, Serializable):
         validator=attr.validators.instance_of(CertificateTransparencyLogParamsBase)
     )
     timestamp = attr.ib(validator=attr.validators.instance_of(datetime.datetime))
-    extensions = attr.ib(
-        validator=attr.validators.deep_iterable(member_validator=attr.validators.instance_of(CtExtensions))
-    )
+    extensions = attr.ib(validator=attr.validators.instance_of(CtExtensions))
     signature_algorithm = attr.ib(validator=attr.validators.in_(TlsSignatureAndHashAlgorithm))
     signature = attr.ib(
         converter=CtSignature,
